@@ -88,4 +88,25 @@ Section Coupling.
     rewrite (attributed_same h h' H) in C2, S2. split; [congruence|].
     intros k Hk. rewrite (S1 k Hk). apply (S2 k Hk).
   Qed.
+  (* ... and so is the force it computes at every step (the step i that follows any history h) *)
+  Theorem abf_force_independent_of_other_biases h h' i i' k :
+    wf_cfg c -> Forall2 same_but_other (h ++ [i]) (h' ++ [i']) ->
+    (k < c_nd c)%nat -> (0 <= c_min c < c_full c)%Z -> (c_cap c = true -> 0 <= vget Rops (c_maxf c) k) ->
+    vget Rops (o_fabf (snd (abf_step Rops c' (fst (abf_run Rops c' h')) i'))) k
+    = vget Rops (o_fabf (snd (abf_step Rops c (fst (abf_run Rops c h)) i))) k.
+  Proof.
+    intros Hwf H Hk Hmf Hcap.
+    assert (A : forall l l', Forall2 same_but_other l l' -> apply_const true l /\ apply_const true l').
+    { intros l l' HF. unfold apply_const. induction HF as [|a b l l' Hab Hl [IH1 IH2]]; split; constructor;
+        try assumption; apply Hab. }
+    destruct (A _ _ H) as [A1 A2].
+    rewrite (applied_force_is_smoothed_negative_mean_const c h i k true Hwf A1 Hk Hmf Hcap).
+    rewrite (applied_force_is_smoothed_negative_mean_const c' h' i' k true Hwf A2 Hk Hmf Hcap).
+    rewrite (attributed_same (h ++ [i]) (h' ++ [i']) H).
+    assert (Hx : i_x i' = i_x i).
+    { clear - H. apply Forall2_app_inv_l in H. destruct H as (l1 & l2 & _ & H2 & E).
+      inversion H2 as [|a b la lb Hab Hl]; subst. inversion Hl; subst.
+      apply app_inj_tail in E. destruct E as [_ <-]. apply Hab. }
+    unfold bins. cbn [c_nd c_lower c_width c' set_other]. rewrite Hx. reflexivity.
+  Qed.
 End Coupling.
